@@ -17,6 +17,7 @@ from pyvc import core, types as T
 from pyvc.core import And, Iff, Implies, Not, Or, cur, py_eq
 from pyvc.heap import Obj
 from pyvc.spec import Contract
+from pyvc.theories.opaque import OpaqueVal
 from pyvc.theories import dtype_lite as DL
 from contracts.util import fld, fld0
 
@@ -208,18 +209,138 @@ class _Family(Contract):
     random parameters (bounded stand-in: idempotence, self-recognition, native spelling and printed name)."""
 
     raises = (ValueError, TypeError)
+    post = None
 
     def setup(self, I):
         DL.install(I)
+        _install_native_constructors(I)
+
+    def make_args(self):
+        a = {k: (t.fresh(k) if hasattr(t, "fresh") else T.fresh_value(t, k)) for k, t in self.params.items()}
+        # parameters that are library values (time zones, units, category lists): opaque, with consistent observations
+        for k in list(a):
+            if self.params[k] is T.Any:
+                a[k] = OpaqueVal(k)
+        s = a.get("self")
+        if isinstance(s, Obj):
+            for f, t in list(s.field_types.items()):
+                if t is T.Any:
+                    v = OpaqueVal(f"self.{f}")
+                    s.attrs[f] = v
+                    s.attrs0[f] = v
+        return a
+
+    def modifies(self, **a):
+        s = a.get("self_") or a.get("self")
+        # a constructor initialises its receiver (and nothing else)
+        return [(s, f) for f in ("type", "tz", "categories", "ordered", "precision", "scale", "rounding", "time_zone_agnostic")]
 
     def ensures(self, result, old, **a):
         s = a.get("self_")
-        return {"boxes_a_native_type": s is not None and s.attrs.get("type") is not None}
+        out = {"boxes_a_native_type": s is not None and s.attrs.get("type") is not None}
+        if self.post is not None and s is not None:
+            out.update(type(self).post(self, s, a, cur().ghost.get("native_ctor_calls", [])))
+        return out
 
 
-def _family(name, target, params, gen, call=None):
+def _install_native_constructors(I):
+    """native type constructors as recorders: each call returns a fresh opaque native type and is logged with its arguments, so a
+    constructor contract can say `the boxed type is the native type built from exactly these parameters`"""
+    import numpy as np
+    import pandas as pd
+    import polars as pl
+
+    def rec(name):
+        def m(I_, *args, **kw):
+            v = OpaqueVal(f"{name}(...)")
+            cur().ghost.setdefault("native_ctor_calls", []).append((name, args, kw, v))
+            return v
+
+        return m
+
+    for name, fn in (("pd.DatetimeTZDtype", pd.DatetimeTZDtype), ("pd.CategoricalDtype", pd.CategoricalDtype), ("pd.ArrowDtype", pd.ArrowDtype), ("pl.Datetime", pl.Datetime),
+                     ("np.dtype", np.dtype)):
+        I.models[id(fn)] = rec(name)
+    try:
+        import pyarrow
+
+        I.models[id(pyarrow.timestamp)] = rec("pyarrow.timestamp")
+    except ImportError:
+        pass
+    try:
+        import pyspark.sql.types as pst
+
+        I.models[id(pst.DecimalType)] = rec("pst.DecimalType")
+    except ImportError:
+        pass
+    import pandera.dtypes as D
+
+    def category_init(I_, self_obj, categories=None, ordered=False):
+        # dtypes.Category.__init__ (its own body: list(categories) - a library iteration): stores its two parameters
+        I_.osetattr(self_obj, "categories", categories) if hasattr(I_, "osetattr") else _oset(self_obj, "categories", categories)
+        _oset(self_obj, "ordered", ordered)
+
+    def decimal_init(I_, self_obj, precision=28, scale=0, rounding=None):
+        for k, v in (("precision", precision), ("scale", scale), ("rounding", rounding)):
+            _oset(self_obj, k, v)
+
+    I.models[id(D.Category.__init__)] = category_init
+    I.models[id(D.Decimal.__init__)] = decimal_init
+
+
+def _oset(o, name, v):
+    o.attrs[name] = v
+    o.writes.append(name)
+
+
+def _only(calls, name):
+    cs = [c for c in calls if c[0] == name]
+    return cs[0] if len(cs) == 1 else None
+
+
+def _post_pandas_datetime(self, s, a, calls):
+    tz0 = s.attrs0.get("tz")
+    c = _only(calls, "pd.DatetimeTZDtype")
+    if tz0 is None:
+        n = _only(calls, "np.dtype")
+        return {"naive_type_is_datetime64_ns": n is not None and n[1] == ("datetime64[ns]",) and s.attrs["type"] is n[3] and c is None}
+    return {"tz_aware_type_is_DatetimeTZDtype_of_unit_and_tz": c is not None and len(c[1]) == 2 and c[1][0] is s.attrs0["unit"] and c[1][1] is tz0 and not c[2] and s.attrs["type"] is c[3],
+            "tz_is_the_tzinfo_pandas_made_of_it": s.attrs["tz"] is c[3].tz if c is not None else False,
+            "unit_kept": s.attrs["unit"] is s.attrs0["unit"]}
+
+
+def _post_pandas_category(self, s, a, calls):
+    c = _only(calls, "pd.CategoricalDtype")
+    return {"type_is_CategoricalDtype_of_categories_and_ordered": c is not None and len(c[1]) == 2 and c[1][0] is a["categories"] and c[1][1] is a["ordered"] and not c[2] and s.attrs["type"] is c[3],
+            "parameters_stored": s.attrs.get("categories") is a["categories"] and s.attrs.get("ordered") is a["ordered"]}
+
+
+def _post_pyspark_decimal(self, s, a, calls):
+    c = _only(calls, "pst.DecimalType")
+    return {"type_is_DecimalType_of_precision_and_scale": c is not None and len(c[1]) == 2 and c[1][0] is a["precision"] and c[1][1] is a["scale"] and not c[2] and s.attrs["type"] is c[3]}
+
+
+def _post_arrow_timestamp(self, s, a, calls):
+    t = _only(calls, "pyarrow.timestamp")
+    c = _only(calls, "pd.ArrowDtype")
+    return {"type_is_ArrowDtype_of_timestamp_of_unit_and_tz": t is not None and c is not None and len(t[1]) == 2 and t[1][0] is s.attrs0["unit"] and t[1][1] is s.attrs0["tz"] and not t[2]
+            and c[1] == (t[3],) and not c[2] and s.attrs["type"] is c[3]}
+
+
+def _post_polars_datetime(self, s, a, calls):
+    c = _only(calls, "pl.Datetime")
+    tu = a["time_unit"]
+    ok = c is not None and not c[1] and c[2].get("time_zone") is a["time_zone"] and s.attrs["type"] is c[3]
+    if c is not None:
+        ok = ok and ((set(c[2]) == {"time_zone"}) if tu is None else (set(c[2]) == {"time_zone", "time_unit"} and c[2]["time_unit"] is tu))
+    return {"type_is_pl_Datetime_of_time_zone_and_time_unit": ok, "time_zone_agnostic_flag_stored": s.attrs.get("time_zone_agnostic") is False}
+
+
+def _family(name, target, params, gen, call=None, post=None):
     class F(_Family):
         pass
+
+    F.post = post
 
     F.target = target
     F.params = params
@@ -240,16 +361,30 @@ def _ref(modname, clsname, **fields):
 PE_, PL_, PS_ = "pandera.engines.pandas_engine", "pandera.engines.polars_engine", "pandera.engines.pyspark_engine"
 
 FAMILIES = [
-    _family("pandas_datetime_tz", f"{PE_}:DateTime.__post_init__", dict(self=_ref(PE_, "DateTime", tz=T.Any, unit=T.Any)), gen_pandas_datetime,
-            call=lambda self, I, fn, a: I.call(fn, [a["self"]], {})),
+    _family("pandas_datetime_tz", f"{PE_}:DateTime.__post_init__", dict(self=_ref(PE_, "DateTime", tz=T.Opt(T.Any), unit=T.Any)), gen_pandas_datetime,
+            call=lambda self, I, fn, a: I.call(fn, [a["self"]], {}), post=_post_pandas_datetime),
     _family("pandas_category", f"{PE_}:Category.__init__", dict(self=_ref(PE_, "Category"), categories=T.Any, ordered=T.Bool), gen_pandas_category,
-            call=lambda self, I, fn, a: I.call(fn, [a["self"], a["categories"], a["ordered"]], {})),
+            call=lambda self, I, fn, a: I.call(fn, [a["self"], a["categories"], a["ordered"]], {}), post=_post_pandas_category),
     _family("decimal_precision_scale", f"{PS_}:Decimal.__init__", dict(self=_ref(PS_, "Decimal"), precision=T.Int, scale=T.Int), gen_decimal,
-            call=lambda self, I, fn, a: I.call(fn, [a["self"], a["precision"], a["scale"]], {})),
+            call=lambda self, I, fn, a: I.call(fn, [a["self"], a["precision"], a["scale"]], {}), post=_post_pyspark_decimal),
     _family("pyarrow_temporal", f"{PE_}:ArrowTimestamp.__post_init__", dict(self=_ref(PE_, "ArrowTimestamp", tz=T.Any, unit=T.Any)), gen_arrow_temporal,
-            call=lambda self, I, fn, a: I.call(fn, [a["self"]], {})),
-    _family("polars_temporal", f"{PL_}:DateTime.__init__", dict(self=_ref(PL_, "DateTime"), time_zone=T.Any, time_unit=T.Any), gen_polars_temporal,
-            call=lambda self, I, fn, a: I.call(fn, [a["self"], False, a["time_zone"], a["time_unit"]], {})),
+            call=lambda self, I, fn, a: I.call(fn, [a["self"]], {}), post=_post_arrow_timestamp),
+    _family("polars_temporal", f"{PL_}:DateTime.__init__", dict(self=_ref(PL_, "DateTime"), time_zone=T.Any, time_unit=T.Opt(T.Any)), gen_polars_temporal,
+            call=lambda self, I, fn, a: I.call(fn, [a["self"], False, a["time_zone"], a["time_unit"]], {}), post=_post_polars_datetime),
 ]
 
 CONTRACTS = FAMILIES
+
+
+# The constructor contracts above now decide parameter forwarding symbolically; what the NATIVE constructors then do with the parameters
+# (interning, normalisation of time zones, printed names) stays a library fact: the run-time contract on the real classes keeps running
+# on every invocation as a bounded obligation of its own (never counted as proved).
+def _bounded_family(F):
+    def run(seed=0, tier="quick"):
+        return F.bounded_standin(seed=seed, tier=tier)
+
+    run.__name__ = "bounded_" + F.__name__.lower()
+    return run
+
+
+BOUNDED = [_bounded_family(F) for F in FAMILIES]
